@@ -48,7 +48,7 @@ def render_not_inline_reference(model: Reference) -> str:
     result += 'Ref'
     if model.name:
         # a name that is not a single word only parses back when quoted
-        result += f' {model.name}' if re.fullmatch(r'\w+', model.name) else f' "{model.name}"'
+        result += f' {model.name}' if re.fullmatch(r'[A-Za-z0-9_]+', model.name) else f' "{model.name}"'
 
     result += (
         ' {\n    '  # type: ignore
